@@ -774,6 +774,19 @@ func c19MalCase(c *Ctx, g *c19Gen) {
 			applied++
 		}
 	}
+	// domain of the parser model: it does not validate the TEXT of RFC 3339 timestamps (Go's decoder does), so a
+	// document in which some mutation sequence left a non-timestamp string in a timestamp member is not generated
+	badTime := false
+	c19Walk(root, func(p c19Path, v any) {
+		if s, ok := v.(string); ok && (p.key == "timestamp" || p.key == "from" || p.key == "to") {
+			if _, err := time.Parse(time.RFC3339Nano, s); err != nil {
+				badTime = true
+			}
+		}
+	})
+	if badTime {
+		return
+	}
 	var b strings.Builder
 	c19Canon(&b, root)
 	text := b.String()
